@@ -490,12 +490,15 @@ CHECK_DEADLOCK FALSE
 
 ALL_INVS = ["OneCloseFrame", "NoDataAfterClose", "ClosedClosesTransport", "CloseCodeRule", "ReceiveNotStuck",
             "CloserNotStuck", "CloseBounded", "CloseWaitResolved", "NoInternalAssert"]
-# the code as found: the three named deviations are excluded from the general invariants
-ASCODED_INVS = {"server": ["OneCloseFrame", "NoDataAfterClose", "ClosedClosesTransportButCwCancel",
+# The code as it is now: FixRearm, FixCwCancel and FixEofCode were repaired in /repo by `fix:` commits
+# (known_findings.json); only the server's close() short-cut (FixShortcut) is still as found, so only
+# that named deviation is excluded from the general invariants.
+CODE_NOW = {"fr": True, "fs": False, "fc": True, "fe": True}
+ASCODED_INVS = {"server": ["OneCloseFrame", "NoDataAfterClose", "ClosedClosesTransport",
                            "CloseCodeRuleButShortcut", "ReceiveNotStuck", "CloserNotStuck", "CloseBounded",
                            "CloseWaitResolved", "NoInternalAssert"],
                 "client": ["OneCloseFrame", "NoDataAfterClose", "ClosedClosesTransport", "CloseCodeRule",
-                           "ReceiveNotStuck", "CloserNotStuck", "CloseWaitResolved", "NoInternalAssert"]}
+                           "ReceiveNotStuck", "CloserNotStuck", "CloseBounded", "CloseWaitResolved", "NoInternalAssert"]}
 
 
 def tla_set(xs: List[str]) -> str:
@@ -515,8 +518,10 @@ def write_cfg(side: str, *, fixed: bool, invs: Optional[List[str]] = None, autoc
     with open(p, "w") as f:
         f.write(CFG.format(side=side, ac=b(autoclose), nrecv=nrecv, rt=rt, ct=ct, hb=hb, mt=mt, tasks=tla_set(list(tasks)),
                            kinds=tla_set(list(kinds)), mp=mp, md=md, mc=mc,
-                           fr=b(fixed if fr is None else fr), fs=b(fixed if fs is None else fs),
-                           fc=b(fixed if fc is None else fc), fe=b(fixed if fe is None else fe), m1=b(m1), m2=b(m2),
+                           fr=b((fixed or CODE_NOW["fr"]) if fr is None else fr),
+                           fs=b((fixed or CODE_NOW["fs"]) if fs is None else fs),
+                           fc=b((fixed or CODE_NOW["fc"]) if fc is None else fc),
+                           fe=b((fixed or CODE_NOW["fe"]) if fe is None else fe), m1=b(m1), m2=b(m2),
                            invs="\n".join("INVARIANT " + i for i in invs)))
     consts = {"side": side, "autoclose": autoclose, "nrecv": nrecv, "rt": rt, "ct": ct, "hb": hb}
     return p, consts
